@@ -806,6 +806,29 @@ func (e *exec) step(i int, op Op) *vcore.Violation {
 		}
 	}
 
+	// --- a packet handed up for one PDR of a session adds one packet to that PDR's queue (or none: no such PDR, queue full)
+	// and leaves what was held before, for this and every other PDR of the session, where it was
+	if e.or.Frame && op.Kind == "report" && op.DLDR {
+		if before, ok := snapBefore.Sess[op.Raw]; ok {
+			if after, ok2 := snapAfter.Sess[op.Raw]; ok2 && len(ended) == 0 {
+				for pdr, qa := range after.Queues {
+					qb := before.Queues[pdr]
+					grown := len(qa) - len(qb)
+					samePrefix := len(qa) >= len(qb)
+					for j := 0; samePrefix && j < len(qb); j++ {
+						samePrefix = qa[j] == qb[j]
+					}
+					if pdr != op.PDR && (grown != 0 || !samePrefix) {
+						return vcore.Violatef("queue-of-other-pdr", "step %d: a packet handed up for PDR %d of session %#x changed what is held for PDR %d: %d -> %d packets", i, op.PDR, op.Raw, pdr, len(qb), len(qa))
+					}
+					if pdr == op.PDR && (grown < 0 || grown > 1 || !samePrefix) {
+						return vcore.Violatef("queue-foreign-packets", "step %d: one packet handed up for PDR %d of session %#x: its queue went from %d to %d packets (held before: %v, held now: %v)", i, op.PDR, op.Raw, len(qb), len(qa), qb, qa)
+					}
+				}
+			}
+		}
+	}
+
 	// --- ended sessions leave nothing behind
 	for up := range ended {
 		s := e.live[up]
